@@ -21,6 +21,7 @@ package main
 import (
 	"bytes"
 	"fmt"
+	"os"
 	"sort"
 	"strings"
 	"unicode/utf8"
@@ -844,8 +845,13 @@ func (t *runner) runCID(cs *cidCase, withModel bool) {
 		return
 	}
 
+	caseID := ""
 	if withModel {
 		id := t.id()
+		doText := !e.Thorough || t.nextID%3 == 0 // the text legs for a third of the cases in the thorough tier
+		if doText {
+			caseID = id
+		}
 		var sb strings.Builder
 		fmt.Fprintf(&sb, "%s C %s %d", id, csrWire(cs.CSR), len(cs.Levels))
 		for _, l := range cs.Levels {
@@ -872,6 +878,14 @@ func (t *runner) runCID(cs *cidCase, withModel bool) {
 			}
 		}
 		e.Line("impl.obs", "%s L=%s A=%s", id, strings.Join(lk, ","), cidMapWire(listed))
+		wm := ""
+		for h := f; h != nil; h = h.Parent {
+			wm += fmt.Sprint(int(h.WMode))
+		}
+		if doText {
+			t.expectB(id, "C", cs.CSR, len(cs.Levels), cs.Probes,
+				fmt.Sprintf("L=%s A=%s W=%s S=%s", strings.Join(lk, ","), cidMapWire(listed), wm, csrSorted(f.CodeSpaceRange)))
+		}
 		e.Sample(3, fmt.Sprintf("cid csr=[%s] levels=%v -> singles=%d ranges=%d", csrWire(cs.CSR), desc["levels_root_first"], len(f.CIDSingles), len(f.CIDRanges)))
 	}
 
@@ -912,6 +926,9 @@ func (t *runner) runCID(cs *cidCase, withModel bool) {
 			return nil
 		}
 		t.checkCIDFile(cs, g, codec2, stage, d2)
+		if caseID != "" {
+			t.textLegsCID(caseID, f, g, r, ref, d2)
+		}
 		return nil
 	})
 	if msg != "" {
@@ -956,8 +973,13 @@ func (t *runner) runTU(cs *tuCase, withModel bool) {
 		return
 	}
 
+	caseID := ""
 	if withModel {
 		id := t.id()
+		doText := !e.Thorough || t.nextID%3 == 0 // the text legs for a third of the cases in the thorough tier
+		if doText {
+			caseID = id
+		}
 		var sb strings.Builder
 		fmt.Fprintf(&sb, "%s T %s %d", id, csrWire(cs.CSR), len(cs.Levels))
 		for _, l := range cs.Levels {
@@ -975,6 +997,10 @@ func (t *runner) runTU(cs *tuCase, withModel bool) {
 		}
 		gm, _ := f.GetMapping()
 		e.Line("impl.obs", "%s L=%s A=%s G=%s", id, strings.Join(lk, ","), tuMapWire(collectTU(f, codec)), tuMapWire(gm))
+		if doText && !deepListBlock(f) { // (the real reader refuses such a text: known finding)
+			t.expectB(id, "T", cs.CSR, len(cs.Levels), cs.Probes,
+				fmt.Sprintf("L=%s A=%s S=%s", strings.Join(lk, ","), tuMapWire(collectTU(f, codec)), csrSorted(f.CodeSpaceRange)))
+		}
 		e.Sample(6, fmt.Sprintf("tounicode csr=[%s] levels=%v -> singles=%d ranges=%d", csrWire(cs.CSR), desc["levels_root_first"], len(f.Singles), len(f.Ranges)))
 	}
 
@@ -985,6 +1011,15 @@ func (t *runner) runTU(cs *tuCase, withModel bool) {
 	msg := embedExtract(cfg, f, func(r *pdf.Reader, ref pdf.Object) error {
 		g, err := pdf.Decode(pdf.NewCursor(r), ref, cmap.ExtractToUnicode)
 		if err != nil {
+			if caseID != "" {
+				// the model's reader must refuse the same text
+				if data, _, e2 := streamText(r, ref); e2 == nil {
+					if ts, e3 := tokenize(data); e3 == nil {
+						e.Line("cases.txt", "%s.r0 RT %s", caseID, tokWire(ts))
+						e.Line("impl.obs", "%s.r0 none", caseID)
+					}
+				}
+			}
 			return err
 		}
 		if g == nil {
@@ -1004,10 +1039,20 @@ func (t *runner) runTU(cs *tuCase, withModel bool) {
 			return nil
 		}
 		t.checkTUFile(cs, g, codec, stage, d2)
+		if caseID != "" {
+			t.textLegsTU(caseID, f, g, r, ref, d2)
+		}
 		return nil
 	})
 	if msg != "" {
-		e.Fail("tounicode-embed-extract", msg, d2)
+		if strings.Contains(msg, "stackoverflow") && deepListBlock(f) {
+			// the known finding: a bfrange block whose k-th entry carries a list of m values needs 3k+3+m
+			// operands, the PostScript interpreter allows 500
+			e.Fail("tounicode-extract-operand-stack-overflow", "ExtractToUnicode fails on the embedded ToUnicode CMap ("+msg+
+				"): a bfrange block of up to 100 entries with long value lists exceeds the interpreter's operand stack", d2)
+		} else {
+			e.Fail("tounicode-embed-extract", msg, d2)
+		}
 	}
 }
 
@@ -1384,6 +1429,26 @@ func (t *runner) genTUCase(class string) *tuCase {
 	return cs
 }
 
+// deepListBlock: some file of the chain has a bfrange block (chunks of 100) in which entry k carries a value
+// list of m != 1 elements with 3k+3+m > 500
+func deepListBlock(f *cmap.ToUnicodeFile) bool {
+	for ; f != nil; f = f.Parent {
+		for i, r := range f.Ranges {
+			if m := len(r.Values); m != 1 && 3*(i%100)+3+m > 500 {
+				return true
+			}
+		}
+	}
+	return false
+}
+
+// irregular text for the codes [row, 0..n-1]: no two neighbours are successors, so the run needs a value list
+func listRow(m map[charcode.Code]string, row, n int) {
+	for lo := 0; lo < n; lo++ {
+		m[charcode.Code(row)|charcode.Code(lo)<<8] = string(rune(0x4E00 + (row*131+lo*7)%20000))
+	}
+}
+
 func simpleProbes(lo, hi int) [][]byte {
 	var res [][]byte
 	for i := lo; i <= hi; i++ {
@@ -1410,6 +1475,18 @@ func (t *runner) corpus() {
 		{0x41: "\U0001F600x", 0x42: "\U0001F600\U0001F600y", 0x43: "\U0001F600z"},
 	} {
 		t.runTU(&tuCase{CSR: charcode.Simple, Levels: []map[charcode.Code]string{m}, Probes: simpleProbes(0x3f, 0x46), Class: "corpus"}, true)
+	}
+	// bfrange blocks with long value lists: entry 99 of a block with 200 values needs exactly 500 operands
+	// (read back fine), with 201 values 501 (the known finding tounicode-extract-operand-stack-overflow)
+	for _, n := range []int{200, 201} {
+		m := map[charcode.Code]string{}
+		for row := 0; row < 99; row++ {
+			listRow(m, row, 2)
+		}
+		listRow(m, 99, n)
+		listRow(m, 100, 3)
+		t.runTU(&tuCase{CSR: charcode.UCS2, Levels: []map[charcode.Code]string{m},
+			Probes: [][]byte{{0, 0}, {0, 1}, {0, 2}, {98, 1}, {99, 0}, {99, 199}, {99, 200}, {99, 201}, {100, 0}, {100, 2}, {100, 3}}, Class: "long-lists"}, true)
 	}
 	// two-byte codes, run over the last-byte boundary
 	t.runTU(&tuCase{CSR: charcode.UCS2, Levels: []map[charcode.Code]string{{0xFE01: "a", 0xFF01: "b", 0x0002: "c", 0x0102: "d"}},
@@ -1488,6 +1565,14 @@ func (t *runner) childNotdef() {
 }
 
 func main() {
+	if os.Getenv("C13_PHASE") == "2" {
+		dir := "."
+		if len(os.Args) > 2 && os.Args[1] == "-dir" {
+			dir = os.Args[2]
+		}
+		phaseTwo(dir)
+		return
+	}
 	e := common.New(13)
 	t := &runner{e: e}
 	_ = utf8.RuneError
